@@ -13,7 +13,7 @@ for d in /verif/seeded/${SEEDS:-*}/; do
   hits=""
   for p in C01 C02 C03 C04 C05 C06 C07 C08 C09 C10 C11 C12 C13 C14 C15 C16 C17 C18; do
     o=$(${CL:-/verif/bin/cachelint} -repo "$W" -verif "$SCR" -prop $p 2>&1); rc=$?
-    if [ $rc -eq 1 ]; then keys=$(echo "$o" | grep '^  violated' | sed 's/^  violated \([^ ]*\) .*/\1/' | sort -u | tr '\n' ',' | sed 's/,$//'); hits="$hits\"$p\":\"$keys\","; 
+    if [ $rc -eq 1 ]; then keys=$(echo "$o" | grep '^  violated' | sed 's/^  violated \([^ ]*\) .*/\1/' | sort -u | tr '\n' ',' | sed 's/,$//'); [ -z "$keys" ] && keys="UNDECIDED(fail-closed)"; hits="$hits\"$p\":\"$keys\","; 
     elif [ $rc -ne 0 ]; then hits="$hits\"$p\":\"BROKEN(exit $rc)\","; fi
   done
   git -C "$W" checkout -q -- . ; git -C "$W" clean -fdq
